@@ -2,6 +2,7 @@ import DnpProofs.Lemmas.Arr
 import DnpModel.Ops
 import Mathlib.Data.List.Nodup
 import Mathlib.Data.List.Perm.Basic
+set_option linter.unusedSectionVars false
 /-! Axis permutations reasoned about *by dimension name*. -/
 namespace Np
 open Arr
